@@ -233,3 +233,17 @@ for c, pats in ((2, (1, 2, 3)), (3, (1, 5, 6, 7))):
                    sym='one row x %d samples: bases symbolic over {A,C,G,T}, presence pattern concrete (mask %d); min_freq = %s; filter ambiguous = %s' % (c, pm, f2 / 2.0, amb),
                    oracle='recorded constant = constant sites among k-mers passing the frequency threshold; table handed on = k-mers passing it and not constant',
                    bounds='1 k-mer, %d samples' % c, timeout=3600, mem_gb=20, mem_expect_gb=8 if amb else 5)
+
+# ------------------------------------------------------------------ C08.wrap / C13.wrap / C10.A / C05.ref
+ob('C08.wrap', ['C08', 'C10'], 'generic_modes/wrap', 'delete_wrapper_2x3', functions=[GM + 'delete', MA + 'delete_samples', MA + 'update_counts'], inst='u64', needs_parts=['merge_ska_array/common'], caps=CAP23, models=['ndarray', 'hashbrown'],
+   stubs=['MergeSkaArray::save -> Ok(()) + call counter (environment stub)'], sym='2 x 3 table over the 16 stored symbols; sample b deleted', oracle='returns => saved exactly once, after the deletion; saved array = remaining samples',
+   bounds='3 samples, 2 k-mers', timeout=2400, mem_gb=14)
+for f10 in (0, 9):
+    ob('C13.wrap.minfreq%s' % ('0' if f10 == 0 else '0.9'), ['C13', 'C10'], 'generic_modes/wrap', 'weed_wrapper_minfreq0' + ('' if f10 == 0 else '9'), functions=[GM + 'weed', MA + 'filter'], inst='u64', needs_parts=['merge_ska_array/common'], family='C13.wrap',
+       caps=CAP23, models=['ndarray', 'hashbrown'], stubs=['MergeSkaArray::save -> Ok(()) + call counter (environment stub)'], sym='2 x 3 table over the 16 stored symbols; no weed file; min_freq = %s; no site filter, no masks' % (f10 / 10.0),
+       oracle='threshold floor(samples x min_freq): min_freq 0 => table saved unchanged; 0.9 => k-mers below 2 of 3 samples dropped; saved exactly once', bounds='3 samples, 2 k-mers', timeout=2400, mem_gb=14)
+for (nm, fn) in [('noconst', 'c10_filter_noconst'), ('nofilter.uk', 'c10_filter_nofilter_uk'), ('noambigorconst.am', 'c10_filter_noambigorconst_am'), ('noambig', 'c10_filter_noambig')]:
+    ob('C10.A.' + nm, ['C10'], 'merge_ska_array/c10', fn, tier='quick' if nm in ('noconst', 'nofilter.uk') else 'thorough', functions=[MA + 'filter', MA + 'update_counts'], inst='u64', needs_parts=['merge_ska_array/common'],
+       caps={'ACAP': 3, 'SCAP': 3, 'MCAP': 1}, models=['ndarray', 'hashbrown'], sym='one row x 3 samples over the 16 stored symbols, threshold 0..=3, arbitrary stored count 0..=3 vs the fresh-build count',
+       oracle='identical result (emitted rows, removed count, saved table) whatever count was stored', bounds='1 k-mer, 3 samples, flags: ' + nm, timeout=2400, mem_gb=14)
+ob('C05.ref', ['C05'], 'ska_ref/vcf', 'u8_to_base_all_bytes', functions=['src/ska_ref.rs::u8_to_base'], needs_parts=['ska_ref/common'], sym='byte (256)', oracle='A/C/G/T map to themselves, everything else to N', bounds='complete domain', timeout=600, mem_gb=8)
